@@ -85,6 +85,11 @@ func c06CLICase(a vh.Args, r *vh.Result, c *c06Case) error {
 		return nil
 	}
 	desync.Digest = desync.SHA512256{}
+	sha256 := c.Variant == "sha256" // the command runs with --digest sha256; everything is read back with the same option
+	if sha256 {
+		desync.Digest = desync.SHA256{}
+		defer func() { desync.Digest = desync.SHA512256{} }()
+	}
 	in := c.input()
 	work := filepath.Join(a.Work, "c06cli")
 	os.RemoveAll(work)
@@ -168,6 +173,9 @@ func c06CLICase(a vh.Args, r *vh.Result, c *c06Case) error {
 	default:
 		return fmt.Errorf("unknown cli op %q", c.Op)
 	}
+	if sha256 {
+		args = append([]string{"--digest", "sha256"}, args...)
+	}
 	ctx, cancel := context.WithTimeout(context.Background(), 120*time.Second)
 	defer cancel()
 	cmd := exec.CommandContext(ctx, bin, args...)
@@ -191,9 +199,12 @@ func c06CLICase(a vh.Args, r *vh.Result, c *c06Case) error {
 	if len(c.Detail) > 300 {
 		c.Detail = c.Detail[:300]
 	}
-	key := fmt.Sprintf("cli|%s|%d|%s", c.Op, c.N, c06FaultTag(c.Faults))
-	r.Count(key, c.Delivered > 0)
+	key := fmt.Sprintf("cli|%s|%s|%d|%s", c.Op, c.Variant, c.N, c06FaultTag(c.Faults))
+	r.Count(key, c.Delivered > 0 || sha256)
 	r.Dist("cli:" + c.Op)
+	if sha256 {
+		r.Dist("cli:" + c.Op + " --digest sha256")
+	}
 	r.Dist("cli-result:" + c.Op + "/" + c.Got)
 	if rc == 0 {
 		blob := in.Blob
@@ -219,6 +230,28 @@ func c06CLICase(a vh.Args, r *vh.Result, c *c06Case) error {
 		if rb := bkReadBack(sdir, expect, nil); rb != "" {
 			c.ReadBack = rb
 			r.Fail("predicate", "cli-"+c.Op+"/exit0-but-chunk-not-readable", fmt.Sprintf("desync %s (n=%d, failing requests %s) exited 0 but the store is incomplete: %s", c.Op, c.N, c06FaultTag(c.Faults), rb), c)
+		}
+		if sha256 && produced {
+			// the command itself must be able to read its index back with the same options
+			var rb []string
+			if c.Op == "make" {
+				rb = []string{"--digest", "sha256", "verify-index", idxFile, file}
+			} else {
+				dst := filepath.Join(work, "readback")
+				os.MkdirAll(dst, 0755)
+				rb = []string{"--digest", "sha256", "untar", "-i", "-s", sdir, "--no-same-owner", idxFile, dst}
+			}
+			rcmd := exec.Command(bin, rb...)
+			var rerr bytes.Buffer
+			rcmd.Stderr = &rerr
+			rcmd.Env = append(os.Environ(), "HOME="+work)
+			if err := rcmd.Run(); err != nil {
+				msg := strings.TrimSpace(rerr.String())
+				if len(msg) > 200 {
+					msg = msg[:200]
+				}
+				r.Fail("predicate", "cli-"+c.Op+"/index-not-readable-with-same-options", fmt.Sprintf("desync --digest sha256 %s exited 0 but `desync %s` on its index fails: %s", c.Op, strings.Join(rb[:3], " "), msg), c)
+			}
 		}
 		if c.Delivered > 0 {
 			r.Fail("predicate", "cli-"+c.Op+"/store-failure-not-reported", fmt.Sprintf("desync %s (n=%d): %d requests were answered with 500 (%s) but the exit status is 0", c.Op, c.N, c.Delivered, c06FaultTag(c.Faults)), c)
@@ -272,6 +305,13 @@ func c06CLI(a vh.Args, r *vh.Result, rng *vh.Rand) error {
 			base := mk(nil)
 			if err := c06CLICase(a, r, base); err != nil {
 				return err
+			}
+			if op == "make" || op == "tar" {
+				sc := mk(nil)
+				sc.Variant = "sha256"
+				if err := c06CLICase(a, r, sc); err != nil {
+					return err
+				}
 			}
 			for _, m := range []string{"HEAD", "PUT"} {
 				total := base.Calls[m]
